@@ -48,7 +48,7 @@ def obligations(tier):
            bounds="6 combinations of 3 registered extensions (two toplevel-property) x with/without a genuinely custom property x 9 routes (parse, add_markings, deepcopy, "
                   "new_version, parse of an instance, bundle member, constructor from the finished object's values strict and permissive, two marking steps)"),
         CH("unknown_types_and_store_switch", H, "stores_and_unknown_types", t, mode="E1s", functions=F[8:10],
-           bounds="4 documents (unregistered type alone / with toplevel-property extension / with new-sdo extension; custom property) x allow_custom x 4 entry points"),
+           bounds="16 documents (unregistered type alone / with an extension entry of each of 14 kinds: toplevel-property, property, new-sdo, new-sco, new-sro, empty, unknown, non-text and look-alike extension types, a key that is not an extension-definition id; custom property) x allow_custom x 4 entry points"),
     ]
     obls += [o for o in C02.obligations(tier) if o.name.startswith("constructor_engine") or o.name == "reference_property"]
     obls += [o for o in C14.obligations(tier) if o.name.startswith("forward_")]
